@@ -8,17 +8,21 @@ VERIF = os.path.dirname(os.path.abspath(__file__))
 # id -> (level category, level text, level note, technique, design ref)
 CLAIMED = {
     "C04": ("fault_enumeration",
-            "AtomicFile.tla models the temp-write-fsync-rename protocol with Kill, PowerLoss and IoError at every step (and two negative-control "
-            "writers for the self-test); TLC checks AllOrNothing on it. A child process performs one real mutating call of each kind under strace: "
-            "its system calls on the state directory are validated by TLC as a behaviour of AtomicFile (separate file in the same directory, fully "
-            "written, chmod, fsync, close, then rename; live file never opened for writing), and every one of those calls is in turn made to fail "
-            "(injected errno) or to be the instant of a SIGKILL; afterwards the real db.Open / the running child must show exactly the pre- or "
-            "post-call state the model allows, no temp left after an error, and later calls must work. In-process save failures (with partial "
-            "writes) and the rollback of the served state are covered by the save-fault edges of the Vault graph.",
-            "SIGKILL leaves the page cache intact; power loss is decided on the model given the validated call order. Rename durability without a "
-            "directory fsync is an explicit file-system assumption. Quick tier: create / new version / delete; thorough: all six operation kinds.",
-            "TLA+ protocol model + TLC validation of strace-recorded system calls + strace fault/kill injection at every call",
-            "DESIGN.md §4 C04"),
+            "AtomicFile.tla models the writer as it is (temp file, write, chmod, fsync, close, rename) with Kill, PowerLoss and IoError at every "
+            "step (and two negative-control writers); TLC checks AllOrNothing on it. FileSys.tla states what C04 requires of ANY sequence of "
+            "file-system calls: the live name is only re-bound, by rename, to a file that is complete, flushed, owner-only and held nothing but "
+            "this save's bytes; the live file is never written, truncated, unlinked or moved; an error reply leaves the old binding, success the "
+            "new one. A child process performs one real mutating call of each kind under strace; the calls that create, write, flush, rename or "
+            "remove files are validated by TLC against FileSys (whatever names, order of independent steps or extra calls the writer uses). Every "
+            "traced call is in turn made to fail (injected errno) and to be the instant of a SIGKILL: after a kill the real db.Open must find the "
+            "complete pre- or post-call state and a restarted server must be able to grow and shrink the file; after an injected error a call "
+            "that reports an error must have left disk and served state at pre (and a retry succeeds), a call that reports success at post. "
+            "In-process save failures (with partial writes) are the save-fault edges of a two-name Vault graph, walked once watching the live "
+            "instance and once watching a copy of the file after every call, with a successful save of another secret after every failed one.",
+            "SIGKILL leaves the page cache intact; power loss is decided on the model given the recorded calls (ReplaceFlushed, AllOrNothingPower). "
+            "Rename durability without a directory fsync is an explicit file-system assumption. Quick tier: create / new version / delete; thorough: all six operation kinds.",
+            "TLA+ file-system model + TLC validation of strace-recorded system calls + strace fault/kill injection at every call + TLC fault graph replay",
+            "DESIGN.md §11.2 (C04 / C13)"),
     "C05": ("fault_enumeration",
             "Envelope.tla (symbolic AEAD: wrapped DEK under the KEK, sealed database under the DEK, both with associated data) is checked by TLC "
             "for TamperEvident under flips, truncation, single-field splices, cross-field moves and wrong KEK; each tamper class is instantiated "
@@ -33,10 +37,12 @@ CLAIMED = {
             "Http.tla puts the gate (method, content type, browser header, identity incl. both capability names and malformed grants, body) in "
             "front of Vault with the exact status table; TLC checks GateNoEffect / StatusExact / PrincipalExact over the full request-class product "
             "in every store state. Every emitted row is sent as a concrete request (several representatives per class) to the real mux: status, "
-            "body (no secret bytes unless 200, empty on 304), audit sink and store untouched when refused, principal recorded and rules applied.",
+            "body (no secret bytes unless 200, empty on 304), audit sink and store untouched when refused, principal recorded and rules applied. "
+            "Overlapping requests by callers with different grants go through the real handlers with replies delivered over a slow connection "
+            "(every other reply pauses where its delivery starts); TLC (VaultConcTrace) requires each reply to be the caller's own result.",
             "WhoIs never returns nil Node/UserProfile; a body with trailing data after a valid JSON value is only used as a read-only primer before malformed requests. Quick tier rotates the "
             "non-conforming representatives with the seed.",
-            "TLC exhaustive request-class graph of Http.tla replayed on the real HTTP mux",
+            "TLC exhaustive request-class graph of Http.tla replayed on the real HTTP mux + TLC validation of concurrent handler histories",
             "DESIGN.md §4 C08"),
     "C01": ("model_checking",
             "TLC enumerates the complete labelled transition graph of spec/Vault.tla for a family of 39 callers (all-access, empty, every "
@@ -44,9 +50,10 @@ CLAIMED = {
             "in every reachable bounded state, and checks AclGate / EffectImpliesGrant / ListExact on it; every edge is then executed on the real "
             "db.DB and through the real HTTP handlers (WhoIs carrying the rules), comparing reply class, payload, audit record and the full state "
             "before/after. Random histories with arbitrary generated rule sets are validated line by line by TLC, which recomputes Allow with the "
-            "specification's own matcher (Glob.tla), not acl.go.",
+            "specification's own matcher (Glob.tla), not acl.go. Concurrent histories in which callers with partial or no grants race authorized "
+            "ones (database API and HTTP handlers, race detector on) are validated by VaultConcTrace: no request may borrow another's verdict.",
             "Bounded model constants; quick tier samples the 4-name graph (the 3-name graph is complete). WhoIs is the injected seam.",
-            "TLC exhaustive graph of Vault.tla replayed on real code (db + http) + TLC trace validation of random histories",
+            "TLC exhaustive graph of Vault.tla replayed on real code (db + http) + TLC trace validation of random and concurrent histories",
             "DESIGN.md §4 C01"),
     "C02": ("model_checking",
             "The Vault specification IS the sequential map model of the statement. TLC enumerates every transition (every operation with every "
@@ -61,13 +68,14 @@ CLAIMED = {
             "Same graph as C02 walked with a real restart (db.Open on the same file and key) after every single call: the projection including "
             "next-version counters must equal the model state (Durable: disk = sec) and the open must leave the file bytes untouched; six golden "
             "schema-v1 files written by the pinned commit are opened by the current build and the observed state is appended to the recorded "
-            "history that produced them, which TLC validates against Vault (Reopen action).",
+            "history that produced them, which TLC validates against Vault (Reopen action). Save-fault graphs (one and two names) are walked with "
+            "restarts and with a copy of the file opened after every call: a failed call acknowledges nothing, also not later.",
             "Golden files were produced by the pinned commit with a committed cleartext test keyset; quick tier samples 40% of the edges.",
             "TLC graph replay with restart after every operation + golden-file histories validated by TLC",
             "DESIGN.md §4 C03"),
     "C06": ("model_checking",
             "Vault.tla models the audit step of every method (who, action, secret, version, authorized; none for an unchanged conditional get; "
-            "fail closed; the encoder's sticky error). TLC enumerates the graph with an audit sink failing at the write or the sync of any record "
+            "fail closed; whether the writer recovers after a failed write or stays latched, as the pinned encoder does, is left open). TLC enumerates the graph with an audit sink failing at the write or the sync of any record "
             "and a failing save; every edge is replayed with a sink the harness owns, which checks per call the records written, that each is "
             "one complete synced JSON line and that the database file was still untouched when it was written. Random histories with faults are "
             "validated by TLC; concurrent callers append to a real audit.NewFile file and TLC explains the file's record order (VaultConcTrace).",
@@ -77,9 +85,11 @@ CLAIMED = {
     "C09": ("model_checking",
             "Every conditional-get edge of the bounded Vault graph (V = current, older, newer, deleted, never-existing, 0; after activation "
             "forwards and backwards) is executed through db.DB, through the HTTP handler + setec.Client.GetIfChanged (304/404/403 mapping) and "
-            "against a FileClient built from the state's active versions; CondGet is checked by TLC on the specification.",
+            "against a FileClient built from the state's active versions; CondGet is checked by TLC on the specification. Conditional gets racing "
+            "activations, puts and deletions -- and each other, carrying different versions -- are recorded at the database API and through the "
+            "HTTP handlers and explained by TLC (the check-and-read is one atomic step; every caller gets the answer to its own question).",
             "FileClient omits empty-valued secrets by design.",
-            "TLC exhaustive graph of Vault.tla, conditional-get edges replayed through three client paths",
+            "TLC exhaustive graph of Vault.tla, conditional-get edges replayed through three client paths + TLC validation of concurrent histories",
             "DESIGN.md §4 C09"),
     "C14": ("model_checking",
             "VaultConc.tla splits every method at the code's lock boundaries (audit outside the mutex, data step inside; conditional get and "
